@@ -3,5 +3,5 @@
 prop=$1; expr=$2; file=$3
 cd /repo && sed -i "$expr" "$file" && git diff --stat | tail -1
 (cd /repo && go build ./... ) || { git -C /repo checkout -- .; echo "MUTANT DOES NOT BUILD"; exit 3; }
-cd /verif && ./bin/simrun check $prop --tier quick 2>&1 | grep -E "VIOLATION|signature|OK property|simrun:" | cut -c1-260 | head -8
+cd /verif && VERIF_OUT=/tmp/mutout ./bin/simrun check $prop --tier quick 2>&1 | grep -E "VIOLATION|signature|OK property|simrun:" | cut -c1-260 | head -8
 git -C /repo checkout -- .
